@@ -78,7 +78,7 @@ ASSERT = {
 # operations whose answers are compared even outside the legal-position domain
 ALWAYS = {'fen', 'att', 'magic', 'tt', 'time', 'go', 'gof', 'gotime', 'prep', 'search', 'facts', 'hashdiff', 'ecache', 'dialog', 'timed', 'conc', 'deep', 'deepseq', 'procuci'}
 # operations where, outside the domain (s.dom=0), only the assertions are judged (the property claims totality there, not values)
-TOTAL_ONLY_OOD = {'go': {'p.total'}, 'gof': {'p.total'}, 'fen': {'p.total'}}
+TOTAL_ONLY_OOD = {'go': {'p.total'}, 'gof': {'p.total'}, 'fen': {'p.total'}, 'dialog': set()}
 
 
 def sh(cmd, cwd=None, env=None, timeout=None, stdin=None):
